@@ -181,6 +181,25 @@ def independence(a: dict, cfg: dict, sp, want) -> List[dict]:
         case = {"op": "independence", "style": style}
         m1 = make()
         m2 = make()
+        # the logic of one build is its own: same object / same tables / same bound instance means that state kept by
+        # the callables of one machine (or an edit of its logic) shows up in the other
+        shared = []
+        if m1.logic is m2.logic:
+            shared.append("logic_object")
+        for tname in ("actions", "guards", "services"):
+            t1, t2 = getattr(m1.logic, tname), getattr(m2.logic, tname)
+            if t1 is t2 and t1:
+                shared.append(tname + "_table")
+            for k in t1:
+                f1, f2 = t1.get(k), t2.get(k)
+                i1 = getattr(f1, "args", (None,))[0] if getattr(f1, "args", None) else getattr(f1, "__self__", None)
+                i2 = getattr(f2, "args", (None,))[0] if getattr(f2, "args", None) else getattr(f2, "__self__", None)
+                if i1 is not None and i1 is i2 and style == "class":
+                    shared.append("bound_instance")
+                    break
+        if shared:
+            bad.append(_v(["builds_share_" + "_and_".join(sorted(set(shared)))], a["label"], cfg, case, "independence", {"definition": a}))
+            continue
         before = fe.nf_lib(m2)
         if fe.nf_diff(want, before):
             continue        # reported by (a)
